@@ -276,12 +276,13 @@ func (p *Path) frameCheck(site string, locs []Loc) {
 	if p.quiet || fx.spec == nil || fx.spec.ModAll {
 		return
 	}
+	ownedAt := p.ownedAt
 	for _, l := range locs {
 		fx.mayWrite[l.Heap] = true
 		var f string
 		switch {
 		case l.Pred != "" || l.AllTag != 0:
-			f = fmt.Sprintf("(forall ((a Ref)) (=> %s (or (> (stamp a) now_0) %s)))", locCond(l, "a"), p.modCond(l.Heap, "a"))
+			f = fmt.Sprintf("(forall ((a Ref)) (=> %s (or (and (> (stamp a) now_0) (< (ftag a) 2000000)) %s)))", locCond(l, "a"), p.modCond(l.Heap, "a"))
 		case l.All:
 			f = "false"
 		case l.MapRow:
@@ -296,11 +297,13 @@ func (p *Path) frameCheck(site string, locs []Loc) {
 				return a
 			}
 			a := wrap(fmt.Sprintf("(idx %s k)", l.Addr))
-			f = fmt.Sprintf("(or (> (stamp %s) now_0) (forall ((k Int)) (=> (and (<= %s k) (< k %s)) %s)))", l.Addr, l.Lo, l.Hi, p.modCond(l.Heap, a))
+			f = fmt.Sprintf("(or (> (stamp %s) now_0) (forall ((k Int)) (=> (and (<= %s k) (< k %s)) (or %s %s))))", l.Addr, l.Lo, l.Hi, p.modCond(l.Heap, a), ownedAt(a))
 		default:
-			f = fmt.Sprintf("(or (> (stamp %s) now_0) %s)", l.Addr, p.modCond(l.Heap, l.Addr))
+			// (a marker ghost field (declared on `any`) of a fresh object is not "fresh memory": callers keep markers
+			// outside the modifies clause, also on objects the callee allocated)
+			f = fmt.Sprintf("(or (and (> (stamp %s) now_0) (< (ftag %s) 2000000)) %s %s)", l.Addr, l.Addr, p.modCond(l.Heap, l.Addr), ownedAt(l.Addr))
 		}
-		p.oblige("frame", site, "write is to fresh memory or within the modifies clause", f)
+		p.oblige("frame", site, "write is to fresh memory, pool-owned memory or within the modifies clause", f)
 	}
 }
 
@@ -380,4 +383,18 @@ func (p *Path) guardMap(m ssa.Value, write bool, site string) {
 	if ld, ok := m.(*ssa.UnOp); ok && ld.Op == token.MUL {
 		p.guardCheck(ld.X, write, site)
 	}
+}
+
+// ownedAt: the address belongs to an object this thread owns exclusively (an item taken from a sync.Pool, or the
+// backing array of a pooled buffer): ghost field `owned` on the object (ghost state, so it survives arbitrary calls).
+func (p *Path) ownedAt(a string) string {
+	f := p.fx.env.fieldFnNamed("gfld_any_owned")
+	h := p.heap(p.fx.env.memHeap(tBool))
+	return fmt.Sprintf("(or (select %s (%s %s)) (and (= (ftag %s) (- 1)) (select %s (%s (ibase %s)))))", h, f, a, a, h, f, a)
+}
+
+func (p *Path) setOwned(obj string, v string) {
+	f := p.fx.env.fieldFnNamed("gfld_any_owned")
+	hn := p.fx.env.memHeap(tBool)
+	p.setHeap(hn, fmt.Sprintf("(store %s (%s %s) %s)", p.heap(hn), f, obj, v))
 }
